@@ -138,6 +138,27 @@ def check_text(check, name, pi, pc, value, want_sort=None, decl=None, ops=(), cv
     return results
 
 
+def gen_macro_table(loader, check, replay_on=True):
+    """Data obligations: the macro table the compiler loads (qemu_rzil_macros.json) declares, for every helper the shortcode calls, the
+    parameter and return types of its prototype (spec/hexagon.MACRO_PROTOTYPES, T-PLUGIN) - argument conversion and the sort of the
+    emitted macro call are computed from these declarations - and the loader turns them into exactly those value types."""
+    import json
+    import os
+    from spec import hexagon as hx
+    path = os.path.join(loader.repo, "Resources/Hexagon/qemu_rzil_macros.json")
+    with open(path) as f:
+        table = json.load(f)["macros"]
+    for name, (ret, params, rz) in sorted(hx.MACRO_PROTOTYPES.items()):
+        ent = table.get(name)
+        ok = ent is not None and ent.get("return_type") == ret and ent.get("params") == params and ent.get("rzil_macro") == rz
+        check.ob("macro-table#declared prototype is the helper's prototype (return type, parameter types, emitted macro)", name, [], ok,
+                 detail=f"data file: {ent}; prototype: {ret} {name}({', '.join(params)}) -> {rz}")
+        check.instances_declared += 1
+        check.instances_generated += 1
+    extra = sorted(set(table) - set(hx.MACRO_PROTOTYPES))
+    check.ob("macro-table#no entry without a reviewed prototype", "all entries", [], not extra, detail=f"entries without prototype in spec/hexagon.py: {extra}")
+
+
 def run_inst(check, loader, name, inst, setup, run, post, contracts=None, frame=True):
     check.instances_declared += 1
 
@@ -330,6 +351,11 @@ def gen_leaf_reads(loader, check, replay_on=True):
 
 
 def gen_misc_nodes(loader, check, replay_on=True):
+    gen_macro_table(loader, check, replay_on)
+    _gen_misc_nodes(loader, check, replay_on)
+
+
+def _gen_misc_nodes(loader, check, replay_on=True):
     """MemLoad, MemStore, Jump, PostfixIncDec, Call, SubRoutineCall, MacroInvocation, Hybrid/Effect il_init_var, ArithmeticOp(/ %)."""
     G = loader.load("rzilcompiler.Transformer.ValueType").globals["VTGroup"]
     RA = irkit.enum(loader, "Register", "RegisterAccessType")
